@@ -36,7 +36,7 @@ func C17(c *run.Ctx) {
 		enforce := gi%2 == 1
 		prefix := []string{"", "urn:custom:par:"}[(gi/2)%2]
 		life := []time.Duration{0, 90 * time.Second}[(gi/4)%2]
-		w := world.New(world.Opts{Mode: world.Mode{DB: (gi/8)%2 == 1}, Cfg: func(cfg *fosite.Config) {
+		w := world.New(world.Opts{Mode: world.Mode{DB: (gi/8)%2 == 1, Hydrate: (gi/16)%2 == 1}, Cfg: func(cfg *fosite.Config) {
 			cfg.IsPushedAuthorizeEnforced = enforce
 			cfg.PushedAuthorizeRequestURIPrefix = prefix
 			cfg.PushedAuthorizeContextLifespan = life
